@@ -286,9 +286,7 @@ class NumpyModel:
                 return a.get(i) if i < la else b.get(i - la)
             x, y = a.get(i), b.get(num_sub(i, la))
             c = num_cmp("<", i, la)
-            if isinstance(x, tuple):
-                return tuple(mk_ite(c, p, q) for p, q in zip(x, y))
-            return mk_ite(c, x, y)
+            return self.merge_values(c, x, y) if not is_concrete(c) else (x if c else y)
 
         return Lst(num_add(a.length, b.length), get, a.elem or b.elem)
 
